@@ -164,7 +164,7 @@ class History:
 
             async def execute_result_async(self, a, title=None):
                 n = next(_uid)
-                rec = {"ev": "enter", "n": n, "ds": self.name, "ast_id": id(a), "dump": astx.dump_fields(a), "title": title, "ast": a,
+                rec = {"ev": "enter", "n": n, "ds": self.name, "self": self, "ast_id": id(a), "dump": astx.dump_fields(a), "title": title, "ast": a,
                        "building": hist.building, "thread": threading.get_ident()}
                 with hist.lock:
                     hist.log.append(rec)
